@@ -6,7 +6,7 @@ public API.  A spec is either {"fam", "seed", "nsteps", ...} (steps are drawn wh
 the live slot types, and recorded) or {"fam", "steps": [...]} (replay / shrink form).
 """
 import gc, random, warnings, operator
-from values import Interner, dtype_wire, err_class
+from values import Interner, dtype_wire, err_class, storage
 
 NSLOTS = 6
 VALS = [0, 1, 2, None, "a", 1.5, True]
@@ -510,7 +510,7 @@ def run_step(w, st):
             except Exception as e:
                 extra["probe_err"] = err_class(e)
         elif op == "sharevec":
-            sl[st["dst"]] = Vector(sl[st["src"]]._underlying, name=sl[st["src"]].name)
+            sl[st["dst"]] = Vector(storage(sl[st["src"]]), name=sl[st["src"]].name)
         elif op == "drop":
             sl[st["r"]] = None
         elif op == "gc":
